@@ -185,12 +185,16 @@ pub struct Node {
     // ---- ghost, across incarnations
     pub max_commit_ever: u64,
     pub reloaded_lower_commit: bool,
+    /// ghost (as leader): peers in Probe state to which an entry-carrying append is unanswered
+    pub probe_outstanding: std::collections::BTreeSet<NodeId>,
     pub ticks_as_leader_with_transferee: usize,
     pub transferee_seen: Option<u64>,
     /// ghost: in-flight window capacity last requested per peer (C18: a resize must not get lost)
     pub want_cap: BTreeMap<u64, usize>,
     /// Ready number whose persistence raft has not been told about yet (deferred notification)
     pub pending_notify: Option<u64>,
+    /// the individual Ready numbers behind `pending_notify`, oldest first
+    pub notify_queue: std::collections::VecDeque<u64>,
     /// ghost (leader side): snapshots sent to a peer and neither reported nor acknowledged yet
     pub snap_outstanding: BTreeMap<u64, u64>,
 }
@@ -413,10 +417,12 @@ impl World {
                     ghost_uncommitted_term: 0,
                     max_commit_ever: 0,
                     reloaded_lower_commit: false,
+                    probe_outstanding: Default::default(),
                     ticks_as_leader_with_transferee: 0,
                     transferee_seen: None,
                     want_cap: BTreeMap::new(),
                     pending_notify: None,
+                    notify_queue: Default::default(),
                     snap_outstanding: BTreeMap::new(),
                 },
             );
@@ -771,7 +777,9 @@ impl World {
         node.transferee_seen = None;
         node.want_cap.clear();
         node.pending_notify = None;
+        node.notify_queue.clear();
         node.snap_outstanding.clear();
+        node.probe_outstanding.clear();
         if node.obs.commit < node.max_commit_ever {
             node.reloaded_lower_commit = true;
         }
@@ -924,8 +932,13 @@ impl World {
                 let node = self.nodes.get_mut(&n).unwrap();
                 let wq_end = node.disk.wq_end();
                 node.outstanding.push_back(Outstanding { number, msgs: persisted_msgs, wq_end });
-                // nothing queued at all => already durable
-                self.complete_persisted(n, false)?;
+                // nothing queued at all => already durable (a still postponed notification of an older write stays postponed)
+                let nothing_new = self.nodes[&n].outstanding.back().map(|o| o.wq_end > self.nodes[&n].disk.wq_base).unwrap_or(true);
+                if !nothing_new {
+                    // reports stay in order: behind postponed ones this one is postponed too
+                    let behind = !self.nodes[&n].notify_queue.is_empty();
+                    self.complete_persisted(n, behind)?;
+                }
             }
             Mode::Sync | Mode::SyncLazy => {
                 self.bump("rounds_sync");
@@ -939,6 +952,7 @@ impl World {
                 }
                 // release held messages of earlier async readies, in order
                 self.nodes.get_mut(&n).unwrap().pending_notify = None; // advance_append below reports every Ready as persisted
+                self.nodes.get_mut(&n).unwrap().notify_queue.clear();
                 let held: Vec<Outstanding> = self.nodes.get_mut(&n).unwrap().outstanding.drain(..).collect();
                 for o in held {
                     self.release(n, o.msgs, false)?;
@@ -1008,6 +1022,7 @@ impl World {
             return Ok(());
         }
         let number = done.last().unwrap().number;
+        let numbers: Vec<u64> = done.iter().map(|o| o.number).collect();
         if done.len() > 1 {
             self.bump("async_persist_skipped_numbers");
         }
@@ -1017,11 +1032,13 @@ impl World {
         if defer {
             let node = self.nodes.get_mut(&n).unwrap();
             node.pending_notify = Some(node.pending_notify.unwrap_or(0).max(number));
+            node.notify_queue.extend(numbers);
             self.bump("persist_notifications_deferred");
             return Ok(());
         }
         let number = {
             let node = self.nodes.get_mut(&n).unwrap();
+            node.notify_queue.clear();
             number.max(node.pending_notify.take().unwrap_or(0))
         };
         self.call(n, CallKind::OnPersist { number }, move |raw| {
@@ -1033,10 +1050,35 @@ impl World {
 
     fn notify(&mut self, n: NodeId) -> VResult<()> {
         let number = match self.nodes.get_mut(&n) {
-            Some(x) if x.raw.is_some() => x.pending_notify.take(),
+            Some(x) if x.raw.is_some() => {
+                x.notify_queue.clear();
+                x.pending_notify.take()
+            }
             _ => None,
         };
         if let Some(number) = number {
+            self.call(n, CallKind::OnPersist { number }, move |raw| {
+                raw.on_persist_ready(number);
+                Ok(())
+            })?;
+        }
+        Ok(())
+    }
+
+    /// The application reports completed writes one by one: only the oldest unreported Ready number.
+    fn notify_one(&mut self, n: NodeId) -> VResult<()> {
+        let number = match self.nodes.get_mut(&n) {
+            Some(x) if x.raw.is_some() => {
+                let k = x.notify_queue.pop_front();
+                if x.notify_queue.is_empty() {
+                    x.pending_notify = None;
+                }
+                k
+            }
+            _ => None,
+        };
+        if let Some(number) = number {
+            self.bump("persist_notifications_one_by_one");
             self.call(n, CallKind::OnPersist { number }, move |raw| {
                 raw.on_persist_ready(number);
                 Ok(())
@@ -1267,6 +1309,7 @@ impl World {
             Action::AppReady { n, mode, skip_fsync, force } => self.app_ready(*n, *mode, *skip_fsync, *force)?,
             Action::Fsync { n, count, defer } => self.fsync(*n, *count, *defer)?,
             Action::Notify { n } => self.notify(*n)?,
+            Action::NotifyOne { n } => self.notify_one(*n)?,
             Action::Apply { n, count } => self.apply_entries(*n, *count, true)?,
             Action::Propose { n, id, size } => {
                 let data = new_entry_payload(*id, *size);
@@ -1467,6 +1510,7 @@ impl World {
             Action::AppReady { n, mode, .. } => (5 + *mode as u64, *n),
             Action::Fsync { n, .. } => (9, *n),
             Action::Notify { n } => (32, *n),
+            Action::NotifyOne { n } => (33, *n),
             Action::Apply { n, .. } => (10, *n),
             Action::Propose { n, .. } => (11, *n),
             Action::ProposeBatch { n, .. } => (31, *n),
